@@ -1,1 +1,344 @@
-//! Scheduled / faulting / recording streams (sync + async).
+//! Scheduled / faulting / recording in-memory stream. One type implements the std traits
+//! (`Read`/`Write`/`Seek`) and the futures traits (`AsyncRead`/`AsyncWrite`/`AsyncSeek`).
+//!
+//! * per-call transfer caps (short reads / short writes),
+//! * per-poll `Pending` bits for the async side (waker woken before returning; at most 3 in a row),
+//! * fail-stop faults: operation k and all later ones return an error,
+//! * a log of every completed operation, the byte ranges delivered to readers, counters.
+//!
+//! The state sits behind `Arc<Mutex<_>>` so that a handle can be kept while the library owns the
+//! stream (PMTiles::from_reader takes the reader by value).
+
+use serde::{Deserialize, Serialize};
+use std::io;
+use std::pin::Pin;
+use std::sync::{Arc, Mutex};
+use std::task::{Context, Poll};
+
+#[derive(Clone, Debug, PartialEq, Eq)]
+pub enum OpRec {
+    Read { pos: u64, want: usize, got: usize },
+    Write { pos: u64, bytes: Vec<u8> },
+    Seek { from: u64, to: u64 },
+    Flush,
+    Close,
+}
+
+#[derive(Clone, Debug, Default, PartialEq, Eq, Hash, Serialize, Deserialize)]
+pub struct Sched {
+    /// cap of the i-th transfer call (0 = unlimited)
+    pub caps: Vec<u32>,
+    /// after the list: repeat it (true) or unlimited (false)
+    pub cycle: bool,
+    /// Pending bit of the i-th poll
+    pub pending: Vec<bool>,
+    pub pending_cycle: bool,
+    /// operation index from which every operation fails
+    pub fail_from: Option<u64>,
+}
+
+impl Sched {
+    pub fn none() -> Sched {
+        Sched::default()
+    }
+    pub fn fixed_cap(n: u32) -> Sched {
+        Sched { caps: vec![n], cycle: true, ..Sched::default() }
+    }
+    pub fn failing_from(k: u64) -> Sched {
+        Sched { fail_from: Some(k), ..Sched::default() }
+    }
+}
+
+#[derive(Default)]
+pub struct Core {
+    pub data: Vec<u8>,
+    pub pos: u64,
+    pub sched: Sched,
+    pub calls: usize,
+    pub polls: usize,
+    pub consecutive_pending: u32,
+    pub ops: u64,
+    pub log: Vec<OpRec>,
+    pub keep_log: bool,
+    pub delivered: Vec<(u64, u64)>,
+    pub shortened: u64,
+    pub pendings: u64,
+    pub closes: u32,
+    pub writes_after_close: u64,
+    pub faults_returned: u64,
+    /// number of operations that completed successfully
+    pub ok_ops: u64,
+}
+
+pub const FAULT_MSG: &str = "injected I/O fault";
+
+impl Core {
+    fn fault(&mut self) -> Option<io::Error> {
+        let k = self.ops;
+        self.ops += 1;
+        match self.sched.fail_from {
+            Some(f) if k >= f => {
+                self.faults_returned += 1;
+                Some(io::Error::new(io::ErrorKind::Other, FAULT_MSG))
+            }
+            _ => None,
+        }
+    }
+    fn cap(&mut self) -> usize {
+        let i = self.calls;
+        self.calls += 1;
+        let c = if self.sched.caps.is_empty() {
+            0
+        } else if i < self.sched.caps.len() {
+            self.sched.caps[i]
+        } else if self.sched.cycle {
+            self.sched.caps[i % self.sched.caps.len()]
+        } else {
+            0
+        };
+        if c == 0 {
+            usize::MAX
+        } else {
+            c as usize
+        }
+    }
+    fn pending(&mut self) -> bool {
+        let i = self.polls;
+        self.polls += 1;
+        let bit = if self.sched.pending.is_empty() {
+            false
+        } else if i < self.sched.pending.len() {
+            self.sched.pending[i]
+        } else if self.sched.pending_cycle {
+            self.sched.pending[i % self.sched.pending.len()]
+        } else {
+            false
+        };
+        if bit && self.consecutive_pending < 3 {
+            self.consecutive_pending += 1;
+            self.pendings += 1;
+            true
+        } else {
+            self.consecutive_pending = 0;
+            false
+        }
+    }
+    fn do_read(&mut self, buf: &mut [u8]) -> io::Result<usize> {
+        if let Some(e) = self.fault() {
+            return Err(e);
+        }
+        let cap = self.cap();
+        let avail = (self.data.len() as u64).saturating_sub(self.pos) as usize;
+        let full = buf.len().min(avail);
+        let n = full.min(cap);
+        if n < full {
+            self.shortened += 1;
+        }
+        let p = self.pos as usize;
+        buf[..n].copy_from_slice(&self.data[p..p + n]);
+        if n > 0 {
+            self.delivered.push((self.pos, self.pos + n as u64));
+        }
+        if self.keep_log {
+            self.log.push(OpRec::Read { pos: self.pos, want: buf.len(), got: n });
+        }
+        self.pos += n as u64;
+        self.ok_ops += 1;
+        Ok(n)
+    }
+    fn do_write(&mut self, buf: &[u8]) -> io::Result<usize> {
+        if let Some(e) = self.fault() {
+            return Err(e);
+        }
+        let cap = self.cap();
+        let n = buf.len().min(cap);
+        if n < buf.len() {
+            self.shortened += 1;
+        }
+        if self.closes > 0 {
+            self.writes_after_close += 1;
+        }
+        let p = self.pos as usize;
+        if self.data.len() < p + n {
+            self.data.resize(p + n, 0);
+        }
+        self.data[p..p + n].copy_from_slice(&buf[..n]);
+        if self.keep_log {
+            self.log.push(OpRec::Write { pos: self.pos, bytes: buf[..n].to_vec() });
+        }
+        self.pos += n as u64;
+        self.ok_ops += 1;
+        Ok(n)
+    }
+    fn do_seek(&mut self, base: u8, off: i128) -> io::Result<u64> {
+        if let Some(e) = self.fault() {
+            return Err(e);
+        }
+        let b: i128 = match base {
+            0 => 0,
+            1 => self.data.len() as i128,
+            _ => self.pos as i128,
+        };
+        let t = b + off;
+        if t < 0 || t > i128::from(u64::MAX) {
+            return Err(io::Error::new(io::ErrorKind::InvalidInput, "invalid seek to a negative or overflowing position"));
+        }
+        if self.keep_log {
+            self.log.push(OpRec::Seek { from: self.pos, to: t as u64 });
+        }
+        self.pos = t as u64;
+        self.ok_ops += 1;
+        Ok(self.pos)
+    }
+    fn do_flush(&mut self) -> io::Result<()> {
+        if let Some(e) = self.fault() {
+            return Err(e);
+        }
+        if self.keep_log {
+            self.log.push(OpRec::Flush);
+        }
+        self.ok_ops += 1;
+        Ok(())
+    }
+    fn do_close(&mut self) -> io::Result<()> {
+        if let Some(e) = self.fault() {
+            return Err(e);
+        }
+        self.closes += 1;
+        if self.keep_log {
+            self.log.push(OpRec::Close);
+        }
+        self.ok_ops += 1;
+        Ok(())
+    }
+}
+
+#[derive(Clone)]
+pub struct Stream(pub Arc<Mutex<Core>>);
+
+impl Stream {
+    pub fn new(data: Vec<u8>, pos: u64, sched: Sched, keep_log: bool) -> Stream {
+        Stream(Arc::new(Mutex::new(Core { data, pos, sched, keep_log, ..Core::default() })))
+    }
+    pub fn reader(data: Vec<u8>, sched: Sched) -> Stream {
+        Stream::new(data, 0, sched, false)
+    }
+    pub fn writer(sched: Sched) -> Stream {
+        Stream::new(Vec::new(), 0, sched, false)
+    }
+    pub fn with<T>(&self, f: impl FnOnce(&mut Core) -> T) -> T {
+        f(&mut self.0.lock().unwrap())
+    }
+    pub fn data(&self) -> Vec<u8> {
+        self.with(|c| c.data.clone())
+    }
+    pub fn pos(&self) -> u64 {
+        self.with(|c| c.pos)
+    }
+    pub fn ops(&self) -> u64 {
+        self.with(|c| c.ops)
+    }
+    pub fn log(&self) -> Vec<OpRec> {
+        self.with(|c| c.log.clone())
+    }
+    /// merged, sorted byte ranges delivered to the reader
+    pub fn delivered(&self) -> Vec<(u64, u64)> {
+        let mut v = self.with(|c| c.delivered.clone());
+        v.sort_unstable();
+        let mut out: Vec<(u64, u64)> = Vec::new();
+        for (a, b) in v {
+            if let Some(l) = out.last_mut() {
+                if a <= l.1 {
+                    l.1 = l.1.max(b);
+                    continue;
+                }
+            }
+            out.push((a, b));
+        }
+        out
+    }
+    pub fn clear_delivered(&self) {
+        self.with(|c| c.delivered.clear());
+    }
+}
+
+fn split_std(s: io::SeekFrom) -> (u8, i128) {
+    match s {
+        io::SeekFrom::Start(n) => (0, i128::from(n)),
+        io::SeekFrom::End(n) => (1, i128::from(n)),
+        io::SeekFrom::Current(n) => (2, i128::from(n)),
+    }
+}
+
+impl io::Read for Stream {
+    fn read(&mut self, buf: &mut [u8]) -> io::Result<usize> {
+        self.with(|c| c.do_read(buf))
+    }
+}
+impl io::Write for Stream {
+    fn write(&mut self, buf: &[u8]) -> io::Result<usize> {
+        self.with(|c| c.do_write(buf))
+    }
+    fn flush(&mut self) -> io::Result<()> {
+        self.with(Core::do_flush)
+    }
+}
+impl io::Seek for Stream {
+    fn seek(&mut self, pos: io::SeekFrom) -> io::Result<u64> {
+        let (b, o) = split_std(pos);
+        self.with(|c| c.do_seek(b, o))
+    }
+}
+
+macro_rules! maybe_pending {
+    ($self:expr, $cx:expr) => {
+        if $self.with(Core::pending) {
+            $cx.waker().wake_by_ref();
+            return Poll::Pending;
+        }
+    };
+}
+
+impl futures::io::AsyncRead for Stream {
+    fn poll_read(self: Pin<&mut Self>, cx: &mut Context<'_>, buf: &mut [u8]) -> Poll<io::Result<usize>> {
+        maybe_pending!(self, cx);
+        Poll::Ready(self.with(|c| c.do_read(buf)))
+    }
+}
+impl futures::io::AsyncWrite for Stream {
+    fn poll_write(self: Pin<&mut Self>, cx: &mut Context<'_>, buf: &[u8]) -> Poll<io::Result<usize>> {
+        maybe_pending!(self, cx);
+        Poll::Ready(self.with(|c| c.do_write(buf)))
+    }
+    fn poll_flush(self: Pin<&mut Self>, cx: &mut Context<'_>) -> Poll<io::Result<()>> {
+        maybe_pending!(self, cx);
+        Poll::Ready(self.with(Core::do_flush))
+    }
+    fn poll_close(self: Pin<&mut Self>, cx: &mut Context<'_>) -> Poll<io::Result<()>> {
+        maybe_pending!(self, cx);
+        Poll::Ready(self.with(Core::do_close))
+    }
+}
+impl futures::io::AsyncSeek for Stream {
+    fn poll_seek(self: Pin<&mut Self>, cx: &mut Context<'_>, pos: io::SeekFrom) -> Poll<io::Result<u64>> {
+        maybe_pending!(self, cx);
+        let (b, o) = split_std(pos);
+        Poll::Ready(self.with(|c| c.do_seek(b, o)))
+    }
+}
+
+/// Image of a fresh, empty, zero-filling stream after replaying the first `k` operations of `log`
+/// (each write atomic).
+pub fn replay_image(log: &[OpRec], k: usize) -> Vec<u8> {
+    let mut img: Vec<u8> = Vec::new();
+    for op in log.iter().take(k) {
+        if let OpRec::Write { pos, bytes } = op {
+            let p = *pos as usize;
+            if img.len() < p + bytes.len() {
+                img.resize(p + bytes.len(), 0);
+            }
+            img[p..p + bytes.len()].copy_from_slice(bytes);
+        }
+    }
+    img
+}
